@@ -7,6 +7,7 @@
   printed, parsed again and printed again (`checks/C02.py`).
 -/
 import Cellml.Xml.Escape
+import Cellml.Xml.Attrs
 namespace Cellml.Props.C02
 open Cellml.Xml
 
@@ -94,5 +95,54 @@ theorem wellFormed_of_safe (s : List Char) (h : safe s = true) : wellFormed s = 
 example : escape "m.cellml?a=1&b=2".toList = "m.cellml?a=1&amp;b=2".toList := by decide
 example : wellFormed "m.cellml?a=1&b=2".toList = false := by decide
 example : unescape "a&lt;b&quot;&apos;&amp;amp;".toList = "a<b\"'&amp;".toList := by decide
+
+/-! ### attributes left out when they have their default value (`<unit>`, `<variable>`) -/
+
+theorem storePrefix_zero : storePrefix "0" = "" := by decide
+
+/-- what `addUnit` stores as a prefix is a fixed point: storing it again changes nothing -/
+theorem storePrefix_idem (p : String) : storePrefix (storePrefix p) = storePrefix p := by
+  unfold storePrefix
+  split
+  · decide
+  · rename_i h; simp [h]
+
+/-- **round trip of a unit child**: printing the stored attributes and loading them again gives the stored unit back,
+    provided the two numbers survive their rendering (`rd (shw x) = some x`) and the prefix is one that `addUnit`
+    stores (every stored prefix is: `storePrefix_idem`) -/
+theorem unit_roundtrip {N : Type} [DecidableEq N] (one : N) (shw : N → String) (rd : String → Option N) (u : UnitRec N)
+    (he : rd (shw u.exponent) = some u.exponent) (hm : rd (shw u.multiplier) = some u.multiplier)
+    (hp : storePrefix u.pfx = u.pfx) :
+    loadUnit one rd (printUnit one shw u) = u := by
+  obtain ⟨r, p, e, m, i⟩ := u
+  simp only at he hm hp
+  unfold loadUnit printUnit
+  by_cases h1 : e = one <;> by_cases h2 : m = one <;> by_cases h3 : p = "" <;> by_cases h4 : i = "" <;>
+    simp [h1, h2, h3, h4, loadStep, he, hm, hp, storePrefix_zero] <;> simp_all
+
+/-- an attribute the printer leaves out is exactly one whose value is the parser's default -/
+theorem unit_omitted_iff {N : Type} [DecidableEq N] (one : N) (shw : N → String) (u : UnitRec N) :
+    ((printUnit one shw u).lookup "exponent" = none ↔ u.exponent = one)
+      ∧ ((printUnit one shw u).lookup "multiplier" = none ↔ u.multiplier = one)
+      ∧ ((printUnit one shw u).lookup "prefix" = none ↔ u.pfx = "")
+      ∧ (printUnit one shw u).lookup "units" = some u.reference := by
+  unfold printUnit
+  by_cases h1 : u.exponent = one <;> by_cases h2 : u.multiplier = one <;> by_cases h3 : u.pfx = "" <;> by_cases h4 : u.id = "" <;>
+    simp [h1, h2, h3, h4, List.lookup]
+
+/-- **round trip of a variable's attributes** (all of them are strings, absent = empty) -/
+theorem variable_roundtrip (v : VarRec) : loadVariable (printVariable v) = v := by
+  obtain ⟨n, u, iv, itf, i⟩ := v
+  unfold loadVariable printVariable
+  by_cases h1 : n = "" <;> by_cases h2 : u = "" <;> by_cases h3 : iv = "" <;> by_cases h4 : itf = "" <;> by_cases h5 : i = "" <;>
+    simp [h1, h2, h3, h4, h5, loadVarStep]
+
+/-! non-vacuity: numbers 1 and 2 with their renderings -/
+def exShow (n : Nat) : String := if n = 2 then "2" else "1"
+def exRead (s : String) : Option Nat := if s = "2" then some 2 else if s = "1" then some 1 else none
+example : loadUnit 1 exRead (printUnit 1 exShow ⟨"metre", "milli", 2, 1, "id1"⟩) = ⟨"metre", "milli", 2, 1, "id1"⟩ := by decide
+example : printUnit 1 exShow ⟨"metre", "", 1, 1, ""⟩ = [("units", "metre")] := by decide
+example : (loadUnit 1 exRead [("prefix", "00"), ("units", "second")]).pfx = "" := by decide
+example : exRead (exShow 2) = some 2 ∧ storePrefix "milli" = "milli" := by decide
 
 end Cellml.Props.C02
